@@ -40,6 +40,23 @@ def report(ctx, known, what, witness):
     return ctx.violation(what, witness)
 
 
+def conformance(ctx, module, cfg, cases, label, chunk=20000, timeout=1500):
+    """ucheck.conformance with one retry: under heavy machine load a TLC run occasionally ends before it has evaluated every
+    case (seen once: states left on its queue, no evaluation error).  A private variant because lib/ucheck.py is shared;
+    the verdict logic is unchanged (the retry re-evaluates everything, nothing is skipped)."""
+    try:
+        return ucheck.conformance(ctx, module, cfg, cases, label, chunk=chunk, timeout=timeout)
+    except vlib.MachineryError as e:
+        if 'evaluated' not in str(e):
+            raise
+        ctx.notes.append('conformance run for %s repeated once: %s' % (label, str(e).splitlines()[0]))
+        with open(os.path.join(ctx.work, 'tlc-incomplete-%s.txt' % label), 'w') as f:
+            f.write(str(e))
+        for k in ('impl_traces', 'tlc_checked_cases'):
+            ctx.cov.pop(k, None)
+        return ucheck.conformance(ctx, module, cfg, cases, label + '-retry', chunk=chunk, timeout=timeout, workers=4)
+
+
 # ---------------------------------------------------------------------------------------------
 def elem_texts(clen):
     pos = sorted({0, 1, 2, max(clen - 1, 0), clen, clen + 1})
@@ -193,7 +210,7 @@ def run(ctx):
     outs = [json.loads(l) for l in r.stdout.splitlines() if l.startswith('{')]
     if len(outs) != len(lines):
         raise vlib.MachineryError('driver answered %d of %d (rc=%s) %s' % (len(outs), len(lines), r.returncode, r.stderr[-800:]))
-    prej, irej = ucheck.conformance(ctx, os.path.join(SPEC, 'Conf_RangeHdr.tla'), os.path.join(SPEC, 'Conf_RangeHdr.cfg'), outs, 'range')
+    prej, irej = conformance(ctx, os.path.join(SPEC, 'Conf_RangeHdr.tla'), os.path.join(SPEC, 'Conf_RangeHdr.cfg'), outs, 'range')
     ctx.log('TLC evaluated %d cases: P-rejected %d, I-rejected %d' % (len(outs), len(prej), len(irej)))
     known = load_known('C28')
     iset = set(irej)
